@@ -1,11 +1,10 @@
 import SamVerif.Props.C02
 /-! Axiom audit of every C02 property theorem (parsed by vlib/common.py). -/
 open SamVerif.Opt
-#print axioms fold_exact_counterexample
-#print axioms fold_mod_counterexample
-#print axioms fold_exact_partial
+#print axioms fold_exact
+#print axioms fold_val_exact
 #print axioms fold_nofold_traps
-#print axioms fold_total_partial
+#print axioms fold_never_panics
 #print axioms ccp_rule_exact_counterexample
 #print axioms ccp_rule_exact_partial
 #print axioms binaryUnwrapped_sound
@@ -17,7 +16,12 @@ open SamVerif.Opt
 #print axioms ivelim_negative_multiplier_counterexample
 #print axioms ivelim_guard_partial
 #print axioms strength_sound
-#print axioms tripcount_exact_partial
-#print axioms tripcount_exact_counterexample
-#print axioms tripcount_panics_counterexample
-#print axioms tripcount_final_value_partial
+#print axioms loopopt_strength_path_sound
+#print axioms ivelim_sound_partial
+#print axioms ivelim_sound_noovf
+#print axioms strength_multi_sound
+#print axioms strength_multi_trace
+#print axioms strength_wrong_base_counterexample
+#print axioms tripcount_exact
+#print axioms tripcount_final_value
+#print axioms tripcount_declines_wrapping_loops
